@@ -244,12 +244,13 @@ def new_event(t, op, a, v=0, r=0):
 
 
 def new_scen(hosts=(), links=(), disks=(), acts=(), events=(), samples=()):
-    return {"capcomm": False, "latwake": False, "hosts": list(hosts), "links": list(links), "disks": list(disks), "acts": list(acts),
+    return {"capcomm": False, "latwake": False, "zerolate": False, "hosts": list(hosts), "links": list(links), "disks": list(disks), "acts": list(acts),
             "events": sorted(events, key=lambda e: e["t"]), "samples": sorted(set(Fraction(s) for s in samples))}
 
 
 def scen_json(sc):
-    return {"capcomm": bool(sc.get("capcomm", False)), "latwake": bool(sc.get("latwake", False)), "tps": TPS,
+    return {"capcomm": bool(sc.get("capcomm", False)), "latwake": bool(sc.get("latwake", False)),
+            "zerolate": bool(sc.get("zerolate", False)), "tps": TPS,
             "hosts": [{"speeds": [rj(s) for s in h["speeds"]], "cores": h["cores"], "sprof": _pj(h["sprof"]),
                        "stprof": _pj(h["stprof"]),
                        "watts": [{"idle": rj(w[0]), "eps": rj(w[1]), "max": rj(w[2])} for w in h["watts"]],
@@ -346,24 +347,20 @@ def scen_text(sc, observe=False, host_energy=False, link_energy=False):
     return "\n".join(out) + "\n"
 
 
-def run_timelines(ctx, scens, timeout=900, tag="tl"):
-    """TLC runs the reference timeline over the scenarios (in chunks: a 32-bit overflow inside one scenario stops the
-    TLC run; the scenarios before it are complete, the offending one is skipped and the run resumes after it).
-    Returns (obs, fin, skipped): obs[i] = list of OBS records of scenario i (plus OBS0 first), fin[i] = FIN record."""
-    obs = [None] * len(scens)
-    fin = [None] * len(scens)
-    skipped = []
-    start = 0
+def _run_timelines_seq(ctx, scens, ids, timeout, tag):
+    """sequential core of run_timelines over the scenarios `ids`; returns (obs, fin, skipped, states, transitions)"""
+    obs, fin, skipped = {}, {}, []
+    states = trans = 0
+    pos = 0
     rounds = 0
-    while start < len(scens):
+    while pos < len(ids):
         rounds += 1
-        ids = list(range(start, len(scens)))
-        f = write_json(ctx, "%s_scen_%d.json" % (tag, rounds), [scen_json(scens[i]) for i in ids])
+        cur = ids[pos:]
+        f = write_json(ctx, "%s_scen_%d.json" % (tag, rounds), [scen_json(scens[i]) for i in cur])
         r = vlib.tlc(os.path.join(SSPEC, "TimelineRun.tla"), env={"SCEN": f}, workers=1, timeout=timeout)
-        ctx.add_tlc(r)
-        got_obs = {}
-        got_fin = {}
-        seen = set()
+        states += r.distinct
+        trans += r.generated
+        got_obs, got_fin, seen = {}, {}, set()
         for line in r.prints:
             if line in seen:
                 continue
@@ -379,17 +376,42 @@ def run_timelines(ctx, scens, timeout=900, tag="tl"):
             else:
                 got_obs.setdefault(v[1] - 1, []).append(rec)
         for k, rec in got_fin.items():
-            fin[ids[k]] = rec
-            obs[ids[k]] = got_obs.get(k, [])
+            fin[cur[k]] = rec
+            obs[cur[k]] = got_obs.get(k, [])
         if r.ok:
             break
         if r.status == "eval" and "Overflow when computing" in r.out:
             done = len(got_fin)
-            skipped.append(ids[done])
-            start = ids[done] + 1
+            skipped.append(cur[done])
+            pos += done + 1
             continue
         raise vlib.InfraError("the timeline specification failed on its own (%s %s)\n%s" % (r.status, r.what[-800:], r.out[-3000:]))
-    return obs, fin, skipped
+    return obs, fin, skipped, states, trans
+
+
+def run_timelines(ctx, scens, timeout=900, tag="tl"):
+    """TLC runs the reference timeline (TimelineRun.tla) over the scenarios, in a few parallel TLC processes; inside one
+    process the scenarios form a single behaviour. A 32-bit overflow inside a scenario stops that TLC run: the
+    scenarios before it are complete, the offending one is skipped (reported in the evidence) and the run resumes
+    after it. Returns (obs, fin, skipped): obs[i] = OBS0/OBS records of scenario i, fin[i] = FIN record or None."""
+    n = len(scens)
+    nchunks = max(1, min(max(2, vlib.NCPU // 2), n // 20))
+    size = (n + nchunks - 1) // nchunks if n else 1
+    chunks = [list(range(i, min(i + size, n))) for i in range(0, n, size)]
+    results = vlib.parallel_map(lambda ci: _run_timelines_seq(ctx, scens, chunks[ci], timeout, "%s%d" % (tag, ci)),
+                                list(range(len(chunks))), nproc=max(1, len(chunks)))
+    obs = [None] * n
+    fin = [None] * n
+    skipped = []
+    for o, f, sk, st, tr in results:
+        for i, v in o.items():
+            obs[i] = v
+        for i, v in f.items():
+            fin[i] = v
+        skipped += sk
+        ctx.cov["states"] += st
+        ctx.cov["transitions"] += tr
+    return obs, fin, sorted(skipped)
 
 
 def near(t, T):
